@@ -19,6 +19,10 @@ ASSUMPTIONS = ['the model\'s record of outputs and created directories of the la
 CFG = gen.cfg_with(probe_w=1, max_root=5)
 
 
+def program_strategy(cfg, cache):
+    return gen.mixed_program(cfg, cache)
+
+
 def drive(draw, h, cfg):
     names = list(h.prog_rel['funcs'])
     univ = cfg['universe']
